@@ -179,3 +179,22 @@ def guards_of(stmt, stop=None):
             break
         node = parent
     return out
+
+
+def enclosing_guards(stmt, stop=None):
+    """Like guards_of, but only the tests of the enclosing if / while statements: the conditions under which the statement is
+    *skipped on valid input*.  Earlier sibling `if c: raise / return` exits (input validation) are not included."""
+    out = []
+    node = stmt
+    while node is not None and node is not stop:
+        parent = getattr(node, "_parent", None)
+        if parent is None:
+            break
+        for field in ("body", "orelse"):
+            seq = getattr(parent, field, None)
+            if isinstance(seq, list) and node in seq and isinstance(parent, (ast.If, ast.While)):
+                out.append((parent.test, field == "body"))
+        if isinstance(parent, (ast.FunctionDef, ast.Lambda)):
+            break
+        node = parent
+    return out
